@@ -164,7 +164,10 @@ func needsQuoting(s string) bool {
 		"repeat", "return", "while":
 		return true
 	}
-	// [%a_][%w_]*
+	// [%a_][%w_]* (at least one character: the empty string is not a name)
+	if s == "" {
+		return true
+	}
 	for i, c := range s {
 		if i == 0 {
 			if !((c >= 'A' && c <= 'Z') || (c >= 'a' && c <= 'z') || c == '_') {
